@@ -34,12 +34,16 @@ RULE = (
 )
 
 WIDE = {"<start>": ["<a>"], "<a>": ["<d>" * 34], "<d>": ["0", "1", "7", "<e>"], "<e>": ["x<d>", "y"]}
+# a node with 260 children: child indices beyond every single-character bound of the subtree trie's key encoding
+VERY_WIDE = {"<start>": ["<a>"], "<a>": ["<d>" * 260], "<d>": ["0", "1", "7"]}
 ASSGN = {"<start>": ["<stmt>"], "<stmt>": ["<assgn>", "<assgn> ; <stmt>"], "<assgn>": ["<var> := <rhs>"], "<rhs>": ["<var>", "<digit>"], "<var>": ["a", "b", "c"], "<digit>": ["0", "1", "2", "7"]}
 NUMS = {"<start>": ["<list>"], "<list>": ["<num>", "<num>,<list>"], "<num>": ["<dig>", "<dig><num>"], "<dig>": ["0", "1", "2", "9"]}
 
 
 def pick_grammar(ctx: Ctx):
     r = ctx.rng.random()
+    if r < 0.03:
+        return VERY_WIDE, "very-wide"
     if r < 0.1:
         return WIDE, "wide"
     if r < 0.3:
@@ -127,7 +131,14 @@ def check_case(ctx: Ctx, grammar, gname: str, text: str, trees: List[T.PT], orig
             v = d[entry]
             ctx.count("isla_" + entry, "raises" if isinstance(v, tuple) else str(v))
             replay = {"grammar": grammar, "constraint": text, "tree": t, "tree_str": T.tree_str(t), "reference": r, "isla": {k: str(x) for k, x in d.items()}, "origin": origin}
-            key_feat = feature_sig(text) + (":wide" if gname == "wide" else "")
+            key_feat = feature_sig(text) + (":wide" if gname in ("wide", "very-wide") else "")
+            z3_bound = " int " in text
+            if z3_bound and (v is None or (isinstance(v, tuple) and v[1] == "UnknownResultError")):
+                # numeric quantifiers are decided by ONE Z3 query over quantified string variables; whether Z3 answers within
+                # its time limit depends on the machine's load.  The property demands a verdict only "when Z3 can decide":
+                # no verdict here, counted
+                ctx.count("z3_quantified_query", f"{entry}: no verdict (unknown)")
+                continue
             if isinstance(v, tuple):
                 ctx.violation(f"{entry}:raises-{v[1]}:{key_feat}", f"{entry} raised {v[1]} ({v[2]}) for {text!r} on {T.tree_str(t)!r}", replay)
             elif r is not None and v is None:
@@ -135,6 +146,25 @@ def check_case(ctx: Ctx, grammar, gname: str, text: str, trees: List[T.PT], orig
             elif r is not None and v != r:
                 ctx.violation(f"{entry}:verdict:{key_feat}", f"{entry} says {v}, the specification says {r}: {text!r} on {T.tree_str(t)!r}", replay)
     ctx.sample({"constraint": text, "trees": [T.tree_str(t) for t in trees][:2], "reference": refs}, limit=6)
+
+
+def wide_witness_cases(ctx: Ctx):
+    """a node with 260 children all spelling 0 except one, at an index around the bounds of the subtree trie's key
+    encoding (28 = old single-character alphabet, 252-254 = escape boundary): the only witness / counterexample of a
+    quantifier sits exactly there"""
+    for k in (0, 27, 28, 29, 251, 252, 253, 254, 259):
+        ids = T.IdGen()
+        kids = []
+        for i in range(260):
+            kids.append((ids(), "<d>", [(ids(), "7" if i == k else "0", [])]))
+        t = (ids(), "<start>", [(ids(), "<a>", kids)])
+        for text in (
+            'exists <d> d in start: ((= d "7"))',
+            'forall <d> d in start: ((= d "0"))',
+            'forall <a> a in start: (exists <d> d in a: ((= d "7")))',
+            'exists <d> d in start: (((= d "7") and (not (= d "0"))))',
+        ):
+            check_case(ctx, VERY_WIDE, "very-wide", text, [t], f"wide-witness-at-{k}")
 
 
 def corpus_cases():
@@ -163,6 +193,7 @@ def run(ctx: Ctx):
     n = 500 if quick else 12000
     for g, text, trees, fn in corpus_cases():
         check_case(ctx, g, "corpus", text, trees, "corpus/" + fn)
+    wide_witness_cases(ctx)
     for i in range(n):
         ctx.check_time()
         g, gname = pick_grammar(ctx)
@@ -170,12 +201,17 @@ def run(ctx: Ctx):
         trees = []
         for _ in range(4):
             t = T.gen_tree(ctx.rng, c, "<start>", ctx.rng.randint(2, 7), T.IdGen())
-            if T.size(t) <= (140 if gname == "wide" else 70):
+            if T.size(t) <= (600 if gname == "very-wide" else 140 if gname == "wide" else 70):
                 trees.append(t)
         if not trees:
             continue
-        fg = FormulaGen(ctx.rng, g, trees, allow_int=(i % 3 == 0))
-        text = fg.constraint(depth=ctx.rng.randint(1, 3))
+        if gname == "very-wide":
+            # 260 children: quantifier domains only (predicates over all node pairs would dominate the run time)
+            fg = FormulaGen(ctx.rng, g, trees, allow_int=False, allow_preds=False)
+            text = fg.constraint(depth=1)
+        else:
+            fg = FormulaGen(ctx.rng, g, trees, allow_int=(i % 3 == 0))
+            text = fg.constraint(depth=ctx.rng.randint(1, 3))
         ctx.count("grammar", gname)
         check_case(ctx, g, gname, text, trees, "generated")
     ctx.obligation("correspondence: evaluate()/check() == reference semantics on all explored (constraint, tree) pairs", not ctx.violations)
